@@ -54,9 +54,11 @@ type App struct {
 	R         *Recorder
 	Who       string
 	FromAppFn func(m *quickfix.Message) quickfix.MessageRejectError
-	ToAdminFn func(m *quickfix.Message)
-	ToAppFn   func(m *quickfix.Message) error
-	Logons    int64
+	// FromAdminFn runs inside the engine's FromAdmin callback (user code: may take time)
+	FromAdminFn func(m *quickfix.Message)
+	ToAdminFn   func(m *quickfix.Message)
+	ToAppFn     func(m *quickfix.Message) error
+	Logons      int64
 }
 
 func (a *App) rec(kind string, m *quickfix.Message) {
@@ -87,6 +89,9 @@ func (a *App) ToApp(m *quickfix.Message, _ quickfix.SessionID) error {
 }
 func (a *App) FromAdmin(m *quickfix.Message, _ quickfix.SessionID) quickfix.MessageRejectError {
 	a.rec("FromAdmin", m)
+	if a.FromAdminFn != nil {
+		a.FromAdminFn(m)
+	}
 	return nil
 }
 func (a *App) FromApp(m *quickfix.Message, _ quickfix.SessionID) quickfix.MessageRejectError {
